@@ -9,7 +9,11 @@ use std::fmt::Write as _;
 pub struct Rng(pub u64);
 impl Rng {
     pub fn new(seed: u64) -> Self {
-        Rng(seed.wrapping_mul(0x9E3779B97F4A7C15).wrapping_add(0xD1B54A32D192ED03))
+        // the seed goes through the finaliser, so that nearby seeds give unrelated streams
+        let mut z = seed.wrapping_add(0xD1B54A32D192ED03);
+        z = (z ^ (z >> 30)).wrapping_mul(0xBF58476D1CE4E5B9);
+        z = (z ^ (z >> 27)).wrapping_mul(0x94D049BB133111EB);
+        Rng(z ^ (z >> 31))
     }
     pub fn next(&mut self) -> u64 {
         self.0 = self.0.wrapping_add(0x9E3779B97F4A7C15);
@@ -33,7 +37,7 @@ impl Rng {
         &xs[self.below(xs.len() as u64) as usize]
     }
     pub fn fork(&mut self) -> Rng {
-        Rng(self.next())
+        Rng::new(self.next())
     }
 }
 
@@ -144,4 +148,83 @@ pub fn panic_msg(e: Box<dyn std::any::Any + Send>) -> String {
     if let Some(s) = e.downcast_ref::<&str>() { s.to_string() }
     else if let Some(s) = e.downcast_ref::<String>() { s.clone() }
     else { "panic".to_string() }
+}
+
+/// Run a property's stream in child processes (address-space limit, watchdog): a hang, an abort or an
+/// out-of-memory kill of the implementation is an outcome, not the end of the check.
+pub fn run_batches(prop: &str, outdir: &str, seed: u64, thorough: bool, nbatches: usize, timeout_s: u64, rule: &str) -> serde_json::Value {
+    use std::process::Command;
+    use std::time::{Duration, Instant};
+    let exe = std::env::current_exe().unwrap();
+    let mut children = vec![];
+    let par = 12usize;
+    let mut merged = Stats::default();
+    let mut shards: std::collections::BTreeMap<String, Vec<String>> = Default::default();
+    let mut next = 0usize;
+    let mut done = 0usize;
+    while done < nbatches {
+        while children.len() < par && next < nbatches {
+            let dir = format!("{}/batch_{}", outdir, next);
+            std::fs::create_dir_all(&dir).unwrap();
+            let cmd = format!("ulimit -v 8000000; exec '{}' '{}@{}' '{}' --seed {} --tier {}", exe.display(), prop, next, dir, seed, if thorough { "thorough" } else { "quick" });
+            let child = Command::new("sh").arg("-c").arg(cmd).stdout(std::process::Stdio::null()).stderr(std::process::Stdio::null()).spawn().unwrap();
+            children.push((next, child, Instant::now(), dir));
+            next += 1;
+        }
+        let mut i = 0;
+        while i < children.len() {
+            let finished = match children[i].1.try_wait() { Ok(Some(st)) => Some(st.success()), Ok(None) => None, Err(_) => Some(false) };
+            let timed_out = children[i].2.elapsed() > Duration::from_secs(timeout_s);
+            if finished.is_some() || timed_out {
+                let (k, mut child, _, dir) = children.remove(i);
+                if timed_out && finished.is_none() { let _ = child.kill(); let _ = child.wait(); }
+                done += 1;
+                let ok = finished == Some(true);
+                match std::fs::read_to_string(format!("{}/oracle.json", dir)).ok().and_then(|t| serde_json::from_str::<serde_json::Value>(&t).ok()) {
+                    Some(o) if ok => {
+                        merged.evaluations += o["evaluations"].as_u64().unwrap_or(0);
+                        if let Some(h) = o["distinct_hashes"].as_array() { for x in h { if let Some(v) = x.as_u64() { merged.distinct.insert(v); } } }
+                        if let Some(a) = o["samples"].as_array() { for x in a { merged.sample(x.clone()); } }
+                        if let Some(a) = o["violations"].as_array() { for x in a { merged.violation(x.clone()); } }
+                        if let Some(a) = o["known"].as_array() { for x in a { merged.known.push(x.clone()); } }
+                        if let Some(a) = o["notes"].as_array() { for x in a { if merged.notes.len() < 8 { merged.notes.push(x.as_str().unwrap_or("").to_string()); } } }
+                        if let Some(d) = o["distribution"].as_object() { for (kk, v) in d { merged.add(kk, v.as_u64().unwrap_or(0)); } }
+                        if let Some(sh) = o["shards"].as_object() { for (stem, files) in sh { for f in files.as_array().unwrap_or(&vec![]) {
+                            // move the shard next to the others under a batch-unique name
+                            let name = f.as_str().unwrap_or("");
+                            let newname = format!("{}_{}", stem, 1000 * k + shards.get(stem).map(|v| v.len()).unwrap_or(0));
+                            let _ = std::fs::rename(format!("{}/{}.v", dir, name), format!("{}/{}.v", outdir, newname));
+                            shards.entry(stem.clone()).or_default().push(newname);
+                        } } }
+                        if let Some(j) = o["case_json"].as_object() { for (stem, arr) in j {
+                            let path = format!("{}/{}.jsonl", outdir, stem);
+                            let mut f = std::fs::OpenOptions::new().create(true).append(true).open(path).unwrap();
+                            use std::io::Write as _;
+                            for x in arr.as_array().unwrap_or(&vec![]) { writeln!(f, "{}", x).unwrap(); }
+                        } }
+                    }
+                    _ => {
+                        let last = std::fs::read_to_string(format!("{}/progress.txt", dir)).unwrap_or_default();
+                        merged.bump(if timed_out { "batch_timed_out" } else { "batch_aborted" });
+                        merged.violation(serde_json::json!({"kind": if timed_out { "did-not-terminate" } else { "process-aborted" }, "batch": k, "last_case": last.trim()}));
+                    }
+                }
+            } else { i += 1; }
+        }
+        std::thread::sleep(Duration::from_millis(50));
+    }
+    let mut out = merged.to_json(rule);
+    out["shards"] = serde_json::json!(shards);
+    out
+}
+
+pub fn progress(outdir: &str, what: &str) { let _ = std::fs::write(format!("{}/progress.txt", outdir), what); }
+
+impl Stats {
+    /// what a batch child writes for the parent to merge
+    pub fn to_child_json(&self, rule: &str) -> serde_json::Value {
+        let mut o = self.to_json(rule);
+        o["distinct_hashes"] = serde_json::json!(self.distinct.iter().cloned().collect::<Vec<u64>>());
+        o
+    }
 }
